@@ -98,8 +98,16 @@ pub fn gen(rng: &mut Rng, idx: usize, n: usize, thorough: bool) -> String {
         }
         _ => {
             let nv = m + 1;
-            let c = gen_cnf(rng, nv, 2 + frac / 20, true);
-            let mut s = format!("C {} {nv}", rng.below(2));
+            let mut c = gen_cnf(rng, nv, 2 + frac / 20, true);
+            let mut ord = rng.below(2);
+            // an empty clause (a line holding only "0") among the others: unsatisfiable input.  Only
+            // with min-fill: FORCE's average-span heuristic underflows on an empty clause (DESIGN section 0)
+            if rng.chance(1, 6) {
+                let at = rng.below(c.len() as u64 + 1) as usize;
+                c.insert(at, vec![]);
+                ord = 0;
+            }
+            let mut s = format!("C {ord} {nv}");
             cnf_str(&c, &mut s);
             s
         }
